@@ -346,6 +346,16 @@ func runCase(c *core.Case) {
 	if mode == "full" && hdr.DataSize != remaining {
 		c.Fail("C08/stream/data-fork-size", "%s (size %d, offset %d): DATA fork header announces %d bytes, remaining data is %d", mode, size, k, hdr.DataSize, remaining)
 	}
+	if mode == "full" {
+		// the header's fork count is what tells a client whether a resource fork follows the data
+		wantForks := 2
+		if rsrc != nil {
+			wantForks = 3
+		}
+		if hdr.ForkCount != wantForks {
+			c.Fail("C08/stream/fork-count", "full download of %q (forks %s): header announces %d forks, %d are on the stream (stored resource fork: %v)", name, forks, hdr.ForkCount, wantForks, rsrc != nil)
+		}
+	}
 	body := out[hdr.HeaderLen:]
 	if len(body) < remaining || !bytes.Equal(body[:remaining], data[koff:]) {
 		n := len(body)
